@@ -10,7 +10,9 @@ from core import AnalysisBroken
 from rules.common import strip_targs
 
 DRIVERS = ['randomx_calculate_hash', 'randomx_calculate_hash_first', 'randomx_calculate_hash_next', 'randomx_calculate_hash_last']
-SAVE = {'_mm_getcsr': 'ret', 'fegetenv': 'arg'}
+SAVE = {'_mm_getcsr': 'ret', 'fegetenv': 'arg', 'feholdexcept': 'arg'}     # feholdexcept stores the environment like fegetenv (and then clears the flags)
+# feupdateenv installs the saved environment and then RAISES the exceptions that were pending: the caller's status flags change, so it is not a restore
+NOT_A_RESTORE = {'feupdateenv'}
 RESTORE = {'_mm_setcsr', 'fesetenv'}
 RANDOMX_CPP = 'src/randomx.cpp'
 
@@ -43,7 +45,9 @@ def rule_fpenv(ctx, R, F, config):
         R.violation(inst + ' save', '%s:%d' % (f['file'], f['line']), expected='exactly one FP environment save (_mm_getcsr / fegetenv)', found='%d' % len(saves))
         return
     if len(restores) != 1:
-        R.violation(inst + ' restore', '%s:%d' % (f['file'], f['line']), expected='exactly one FP environment restore (_mm_setcsr / fesetenv)', found='%d' % len(restores))
+        upd = g.find_calls(lambda c: c.get('name') in NOT_A_RESTORE)
+        R.violation(inst + ' restore', '%s:%d' % (f['file'], f['line']), expected='exactly one FP environment restore (_mm_setcsr / fesetenv)',
+                    found='%d%s' % (len(restores), '; %s re-raises the pending exceptions after installing the saved environment, the caller gets its status flags back changed' % upd[0][1]['name'] if upd else ''))
         return
     sn, sc = saves[0]
     rn, rc = restores[0]
